@@ -4,7 +4,7 @@ get each metadata field overwritten in turn with boundary values (0, 1, 30, 31, 
 -1, -2, self, root, random), checksum repaired or not; the read-only API (mount, list with and without cache, lookup,
 open, seek, read) runs on them in the AddressSanitizer build with a per-call read budget.  Any sanitizer report, signal
 or abort is a violation; hangs are the business of C11."""
-import os, subprocess
+import os, shutil, subprocess
 from . import common, gen, hist, mkimage, mutimg, c06
 from .common import hexs
 
@@ -27,7 +27,8 @@ def read_script(img_path, n, names):
     L = ["readlimit 30000", "loaddev %s %s" % ("mem" if n in (1760, 3520) else "file", img_path), "mountdev 1", "mount 0 1",
          "list - 0 1", "list - 1 1", "free"]
     for (p, nm) in names:
-        L += ["lookup %s %s" % (p, nm), "open 0 %s %s r" % (p, nm), "read 0 700", "seek 0 40000", "read 0 1000", "seek 0 100000", "read 0 10", "close 0"]
+        L += ["lookup %s %s" % (p, nm), "open 0 %s %s r" % (p, nm), "read 0 700", "seek 0 40000", "read 0 1000", "seek 0 100000", "read 0 10", "close 0",
+              "open 0 %s %s r" % (p, nm), "read 0 200000", "close 0", "fileblocks %s %s" % (p, nm)]
     L += ["cd %s" % hexs(b"dl"), "cd %s/%s" % (hexs(b"dir"), hexs(b"sub")), "umount", "umountdev"]
     return L
 
@@ -38,7 +39,7 @@ def run(ctx):
     names = [("-", hexs(b"big")), ("-", hexs(b"small")), ("-", hexs(b"lnk")), (hexs(b"dir"), hexs(b"in1")),
              ("%s/%s" % (hexs(b"dir"), hexs(b"sub")), hexs(b"deep")), ("-", hexs(b"dir")), ("-", hexs(b"nonexistent"))]
     total = 0
-    budget = 260 if ctx.tier == "quick" else 20000
+    budget = 6000 if ctx.tier == "quick" else 200000
     for (flav, n, data, label) in base_images(ctx):
         p0 = os.path.join(ctx.work, "c10_base.img")
         open(p0, "wb").write(data)
@@ -51,21 +52,44 @@ def run(ctx):
         # data blocks of FFS files are not metadata: keep blocks whose type field looks like metadata plus OFS data blocks (first few)
         fields = mutimg.metadata_fields(data, n, owned, flav)
         rng.shuffle(fields)
-        per_image = budget // (4 if ctx.tier == "quick" else len(gen.FLAVOURS))
-        cases = []
+        nbases = 4 if ctx.tier == "quick" else len(gen.FLAVOURS)
+        per_image = budget // nbases
+
+        def fname(f):
+            return "table" if f[3].startswith("table[") else ("bmPages" if f[3].startswith("bmPages") else f[3])
+        # classes (kind of block, field, value, checksum repaired): every class gets a case before any gets a second one
+        classes = {}
         for fld in fields:
-            vals = mutimg.VALUES32 if fld[2] == 4 else mutimg.VALUES8
-            pick = rng.sample(vals, 2 if ctx.tier == "quick" else len(vals)) + ([fld[0], n // 2] if fld[2] == 4 else [])
-            for v in pick:
-                cases.append((fld, v, rng.random() < 0.75))
-        rng.shuffle(cases)
-        for (fld, v, fixs) in cases[:per_image]:
+            vals = list(mutimg.VALUES32 if fld[2] == 4 else mutimg.VALUES8) + ([fld[0], n // 2, n - 1, n] if fld[2] == 4 else [])
+            for v in vals:
+                for fixs in (True, False):
+                    classes.setdefault((fld[4], fname(fld), v if v not in (fld[0],) else "self", fixs), []).append((fld, v, fixs))
+        order = sorted(classes, key=repr)
+        rng.shuffle(order)
+        # checksum-repaired cases reach deeper: they come first
+        order.sort(key=lambda c: not c[3])
+        cases = []
+        depth = 0
+        while len(cases) < per_image and any(len(classes[c]) > depth for c in order):
+            for c in order:
+                if len(classes[c]) > depth:
+                    cases.append(classes[c][depth])
+            depth += 1
+        cases = cases[:per_image]
+        ctx.bump("mutation_classes", len(order))
+
+        def one(job):
+            k, (fld, v, fixs) = job
             m = mutimg.mutate(data, n, fld, v, fixs)
-            mp = os.path.join(ctx.work, "c10_m.img")
+            mp = os.path.join(ctx.work, "c10_m%d_%d.img" % (flav, k))
             open(mp, "wb").write(m)
             L = read_script(mp, n, names)
             rc, out, err, wd = common.run_script(ctx, "\n".join(L) + "\n", variant="adfh-asan", timeout=120,
                                                  env={"ASAN_OPTIONS": "detect_leaks=0:abort_on_error=0:exitcode=99:allocator_may_return_null=1"})
+            os.unlink(mp)
+            shutil.rmtree(wd, ignore_errors=True)
+            return (fld, v, fixs, L, rc, out, err)
+        for (fld, v, fixs, L, rc, out, err) in common.pmap(one, list(enumerate(cases))):
             total += 1
             ctx.count((flav, fld[3], fld[4], v, fixs))
             ctx.bump("field:" + fld[4])
@@ -81,6 +105,57 @@ def run(ctx):
                 ctx.sample({"flavour": flav, "field": fld[3], "block_kind": fld[4], "value": v, "checksum_fixed": fixs})
         if len(ctx.failures) > 6:
             break
+    # partitioned disk: every long word of the RDSK / PART / FSHD / LSEG blocks
+    L0 = gen.dev_create("PART:120:2:16:2,50;52,60", 1) + ["dump $W/rdb.img"]
+    rc, out, err, wd = common.run_script(ctx, "\n".join(L0) + "\n")
+    rdb = os.path.join(wd, "rdb.img")
+    if os.path.exists(rdb) and len(ctx.failures) <= 6:
+        rdata = open(rdb, "rb").read()
+        nblk = len(rdata) // 512
+        rcases = []
+        for blk in range(0, 5):
+            for off in range(0, 256, 4):
+                if mkimage.get32(rdata, blk * 512 + off) == 0 and off > 40 and rng.random() < (0.8 if ctx.tier == "quick" else 0.0):
+                    continue       # quick tier: most of the zero (reserved) words are skipped
+                for v in [0, 1, blk, 5, 0xFFFFFFFF, 0x7FFFFFFF, 0x80000000, nblk, nblk - 1, 64, 65, 0x10000]:
+                    if v != mkimage.get32(rdata, blk * 512 + off):
+                        rcases.append((blk, off, v, True))
+                rcases.append((blk, off, 0xFFFFFFFF, False))
+        rng.shuffle(rcases)
+        rcases = rcases[: (1500 if ctx.tier == "quick" else 100000)]
+
+        def rone(job):
+            k, (blk, off, v, fixs) = job
+            m = bytearray(rdata)
+            mkimage.put32(m, blk * 512 + off, v)
+            if fixs and off != 8:
+                size = 256
+                bb = bytearray(m[blk * 512: blk * 512 + size])
+                mkimage.put32(bb, 8, 0)
+                s_ = 0
+                for i in range(0, size, 4):
+                    s_ = (s_ + mkimage.get32(bb, i)) & 0xFFFFFFFF
+                mkimage.put32(bb, 8, (-s_) & 0xFFFFFFFF)
+                m[blk * 512: blk * 512 + size] = bb
+            mp = os.path.join(ctx.work, "c10_rdb%d.img" % k)
+            open(mp, "wb").write(bytes(m))
+            L = ["readlimit 30000", "loaddev mem %s 120 2 16" % mp, "mountdev 1", "mount 0 1", "list - 0 1", "free", "umount", "mount 1 1", "list - 0 1", "umount", "umountdev"]
+            rc, out, err, wd2 = common.run_script(ctx, "\n".join(L) + "\n", variant="adfh-asan", timeout=120,
+                                                  env={"ASAN_OPTIONS": "detect_leaks=0:abort_on_error=0:exitcode=99:allocator_may_return_null=1"})
+            os.unlink(mp)
+            shutil.rmtree(wd2, ignore_errors=True)
+            return (blk, off, v, fixs, L, rc, out, err)
+        for (blk, off, v, fixs, L, rc, out, err) in common.pmap(rone, list(enumerate(rcases))):
+            total += 1
+            ctx.count(("rdb", blk, off, v, fixs))
+            ctx.bump("field:rdb-block-%d" % blk)
+            if rc not in (0, 3):
+                first_err = [l for l in err.splitlines() if "ERROR" in l or "SUMMARY" in l][:2]
+                ctx.fail("crash", "invalid memory access / abort on a corrupted partitioned-disk image (exit %d)" % rc,
+                         {"rdb_block": blk, "offset": off, "value": v, "checksum_fixed": fixs, "script": L},
+                         expected="data or an error", actual={"last_output": out[-2:], "sanitizer": first_err})
+                if len(ctx.failures) > 6:
+                    break
     # the deliberately corrupt dump shipped with the repository
     f = os.path.join(common.REPO, "regtests", "Dumps", "cache_crash.adf")
     if os.path.exists(f):
@@ -90,7 +165,8 @@ def run(ctx):
         if rc not in (0, 3):
             ctx.fail("crash", "invalid memory access on regtests/Dumps/cache_crash.adf (exit %d)" % rc, {"script": L}, actual=(out[-2:], err[-400:]))
     rule = ("well-formed base images (independent writer; OFS/FFS, with and without directory cache; files with extension blocks, nested directories, hard links) x "
-            "each metadata field of each reached metadata block x boundary values x checksum repaired or not, run under AddressSanitizer(+bounds); "
+            "each metadata field of each reached metadata block x boundary values (and self / root / last / one-past-last block) x checksum repaired or not, classes (block kind, field, value) "
+            "covered round-robin; every long word of the RDSK/PART/FSHD/LSEG blocks of a two-partition disk x 12 values; run under AddressSanitizer(+bounds); "
             "distinct = (flavour, field, block kind, value, checksum fixed); all non-trivial")
     return common.finish(ctx, proof, rule, level="exploration",
                          assumptions=["AddressSanitizer detects the invalid access (stack/heap/global buffer overflow, use after free); plain wild reads inside mapped memory may escape it",
